@@ -733,6 +733,12 @@ where
             ));
         }
 
+        // Each chunk checks the consistency of its own members only, so a batch that spans several chunks needs the
+        // check across all of its members as well
+        if statements.len() > MAX_RANGE_PROOF_BATCH_SIZE {
+            RangeProof::verify_statements_and_generators_consistency(statements, proofs)?;
+        }
+
         // Store masks from all results
         let mut masks = Vec::<Option<ExtendedMask>>::with_capacity(proofs.len());
 
